@@ -422,10 +422,46 @@ def global_cache_rule(ctx: Ctx, rule: str) -> None:
                 f"writer:{a}", what=f"the process-wide interaction cache `{a}` is written: earlier evaluations influence later signatures")
         else:
             rep.ok(rule, gc.qname, desc, gc.module.relpath)
+    # what an earlier evaluation recorded in a process-wide cache is not used to resolve objects now: the names a function
+    # depended on when it was analysed before may be gone (helper deleted, function redefined in a later notebook cell)
+    for a in attrs:
+        if not writers[a]:
+            continue
+        for f, n in readers[a]:
+            par = f.module.parent.get(n)
+            if isinstance(par, ast.Attribute) and par.attr in ("get", "setdefault", "pop") and isinstance(f.module.parent.get(par), ast.Call):
+                par = f.module.parent.get(par)
+            elif not (isinstance(par, ast.Subscript) and isinstance(par.ctx, ast.Load)):
+                continue
+            root = f
+            while root.parent is not None:
+                root = root.parent
+            fam = {q for q in prog.funcs if q == root.qname or q.startswith(root.qname + ".")}
+
+            def is_sink(g, call, pos, kw):
+                fs_, d_ = prog.callees(g, call, types)
+                names_ = [x.qname for x in fs_] + ([d_] if d_ else [])
+                if any("retrieve_object" in x for x in names_):
+                    return f"resolver call at {g.loc(call)}"
+                return None
+
+            fw = Forward(prog, types, is_sink=is_sink, funcs=fam)
+            hits = fw.run([(f, par, f"entry of the process-wide cache {a} (recorded by an earlier evaluation)")])
+            desc = f"the entries of `{a}` recorded by earlier evaluations are not resolved again"
+            if hits:
+                w0 = writers[a][0]
+                rep.bad(rule, f.qname, desc, f.loc(par), hits[0][1].chain() + [f"{w0[0].loc(w0[1])}: `{unparse(w0[1], 60)}` records the dependencies of the function as they were when it was analysed",
+                        "history: evaluate f (which calls helper), delete helper and redefine f without it (a later notebook cell): the next evaluation resolves the recorded "
+                        "name `helper` and raises `Cannot load path`, where a fresh process evaluates f"], f"stale-resolve:{a}",
+                        what=f"dependencies recorded in the process-wide cache `{a}` by an earlier evaluation are resolved again: a redefined function cannot be evaluated any more")
+            else:
+                rep.ok(rule, f.qname, desc, f.loc(par))
     control = [a for a in attrs if writers[a]]
     rep.floor(rule + ".control(writers of other caches)", len(control), 1)
     if not returned:
-        rep.unknown(rule, gc.qname, "no process-wide cache is returned as an analysis result: role not found", gc.module.relpath)
+        nread = sum(len(v) for v in readers.values())
+        rep.ok(rule, gc.qname, f"no entry of a process-wide cache ({', '.join(attrs)}) is returned as an analysis result ({nread} read(s) outside the class, none of them returned)",
+               gc.module.relpath)
 
 
 def _order_site(ctx: Ctx, f: Func, node: ast.AST) -> Optional[Tuple[ast.AST, str]]:
